@@ -52,7 +52,10 @@ pub fn fmt_num(x: f64) -> String {
 pub fn render_comp(c: &AbsComp) -> String {
     let vals = c.v.iter().map(|x| fmt_num(*x)).collect::<Vec<_>>().join(", ");
     // the comment class "@lowscop" stands for the tag the library looks for
-    let text = if c.cm == "@lowscop" { "CTEEPBD_EXCLUYE_SCOP_ACS" } else { c.cm.as_str() };
+    // ... and "@completion" / "@aux" for the comments the library itself gives to the components it generates (a file
+    // written by the program and edited by its user declares lines that carry them)
+    let (gen_c, gen_a) = crate::flat::generated_comments().clone();
+    let text = if c.cm == "@lowscop" { "CTEEPBD_EXCLUYE_SCOP_ACS" } else if c.cm == "@completion" { gen_c.as_str() } else if c.cm == "@aux" { gen_a.as_str() } else { c.cm.as_str() };
     let cm = if text.is_empty() { String::new() } else { format!(" # {}", text) };
     match c.kind.as_str() {
         "USED" => format!("{}, CONSUMO, {}, {}, {}{}", c.id, c.srv, c.cr, vals, cm),
